@@ -328,3 +328,119 @@ def run(ck, prog):
     _run_pre_dimension(ck, prog)
     from sa import dimension
     dimension.run_rule(ck, prog, set(DIMENSION_FILES))
+
+
+# ------------------------------------------------------------------ the best candidate is compared with candidates only
+_run_pre_candidate = run
+
+
+def candidate_floor(ck, prog):
+    """Completeness ('a node that may be split and has an admissible threshold is split'): the first admissible candidate is
+    recorded whatever its gain, and 'a split was found' means 'a candidate was recorded'. Structural necessary condition:
+    the stored best score (`split_score`) is compared with other candidates' scores only - never defaulted to, or tested
+    against, a constant (a floor of zero drops every zero-gain threshold, e.g. on XOR-like targets)."""
+    from sa.match import Zero
+    from sa.prov import Resolver, render, subterms
+    rule = "E1-candidate"
+    zero = Zero()
+
+    def is_const(t):
+        return zero(t) or t[0] == "const" and t[1][:1].isdigit() or (t[0] == "fnref" and t[1].endswith(("Zero::zero", "::zero", "::epsilon", "::one"))) \
+            or (t[0] == "call" and not t[2] and t[1].endswith(("::epsilon", "::one", "::min_positive_value")))
+    n = 0
+    for tree in ("decision_tree_regressor::DecisionTreeRegressor", "decision_tree_classifier::DecisionTreeClassifier"):
+        for fn in ("find_best_split", "find_best_cutoff"):
+            inst = f"{tree.split('::')[-1]}::{fn}: split_score is compared with candidates only"
+            b = prog.bodies.get(f"tree::{tree}::<T>::{fn}")
+            if b is None:
+                ck.violation(rule, inst, f"tree::{tree}::<T>::{fn}", "", expected="anchor exists", found="anchor vanished")
+                continue
+            res = Resolver(b)
+            cx = BodyCtx.of(b)
+            problems = []
+            touches = lambda t: any(s[0] == "field" and s[2] == "split_score" for s in subterms(t))
+            for c in cx.cmps:
+                for side in (c.lhs, c.rhs):
+                    if touches(side) and any(is_const(s) for s in subterms(side)) and side[0] != "field":
+                        problems.append((c.where, f"`{render(side)[:80]}` supplies a constant in place of a missing best score"))
+            # Option adaptors on split_score that take a closure: the closure must not test its parameter against a constant
+            for bb, t in b.calls():
+                f = t.get("f")
+                if not (f and f["path"].startswith("std::option::Option") and t["args"]):
+                    continue
+                recv = res.operand(t["args"][0])
+                if not touches(recv):
+                    continue
+                for a in t["args"][1:]:
+                    at = res.operand(a)
+                    if at[0] == "agg" and at[1].startswith("closure:"):
+                        cb = prog.get(at[1][len("closure:"):])
+                        if cb is None:
+                            continue
+                        cr = Resolver(cb)
+                        for c2 in guards.comparisons(cb, cr):
+                            sides = (c2.lhs, c2.rhs)
+                            if any(s[0] == "arg" for s in sides) and any(is_const(s) for s in sides):
+                                problems.append((cb.where(c2.bb), f"the closure handed to `{f['name']}` on split_score tests the score against a constant"))
+                        rt = cr.local(0)
+                        for s in subterms(rt):
+                            cnd = guards._cond(cr, s) if s[0] in ("bin", "call") else None
+                            if cnd and any(x[0] == "arg" for x in (cnd[0], cnd[2])) and any(is_const(x) for x in (cnd[0], cnd[2])):
+                                problems.append((f"{cb.loc[0]}:{cb.loc[1]}", f"the closure handed to `{f['name']}` on split_score tests the score against a constant"))
+                    elif is_const(at) and f["name"] in ("unwrap_or", "unwrap_or_else", "map_or", "unwrap_or_default"):
+                        pass   # reported through the comparison it feeds (above) when it reaches one
+            n += 1
+            if problems:
+                w, m = problems[0]
+                ck.violation(rule, inst, b.path, w, expected="the best score is only ever compared with another candidate's score or tested for presence",
+                             found="; ".join(sorted({m for _, m in problems})))
+            else:
+                ck.ok(rule, inst, b.path, f"{b.loc[0]}:{b.loc[1]}", "no constant floor on split_score")
+
+
+def run(ck, prog):
+    _run_pre_candidate(ck, prog)
+    candidate_floor(ck, prog)
+    ck.floor("E1-candidate", 4)
+
+
+# ------------------------------------------------------------------ both children are one level below their parent
+_run_pre_levels = run
+
+
+def child_levels(ck, prog):
+    """Depth limit: 'no root-to-leaf path has more than max_depth splits'. In `split` the two child visitors are built by the
+    same constructor; both must receive the same level term, and that term is the parent's level + 1 (sibling agreement)."""
+    from sa.prov import Resolver, render
+    rule = "E1-sibling"
+    for nm, P in TREES.items():
+        inst = f"{nm}: both child visitors of split() are one level below the parent"
+        b = _one(ck, prog, rule, inst, P + "split")
+        if not b:
+            continue
+        res = Resolver(b)
+        news = [(bb, t) for bb, t in b.calls() if t.get("f") and t["f"]["path"].endswith("NodeVisitor::<'a, T, M>::new") or
+                (t.get("f") and t["f"]["path"].endswith("::new") and "NodeVisitor" in t["f"]["path"])]
+        if len(news) != 2:
+            ck.note(f"{inst}: {len(news)} NodeVisitor::new calls in split (expected 2): child visitors built differently, no instance")
+            continue
+        lv = [res.operand(t["args"][-1]) for _, t in news]
+        is_parent_plus_1 = lambda t: t[0] == "bin" and t[1] in ("Add", "AddWithOverflow") and ("int", 1) in (t[2], t[3]) and \
+            any(x[0] == "field" and x[2] == "level" for x in (t[2], t[3]))
+        strip = lambda t: t[1] if t[0] == "field" and t[2] == "0" and t[1][0] == "bin" else t
+        lv = [strip(x) for x in lv]
+        if lv[0] != lv[1]:
+            ck.violation(rule, inst, b.path, b.where(news[1][0]), expected="the same level for both children",
+                         found=f"true child gets `{render(lv[0])}`, false child gets `{render(lv[1])}`")
+        elif not is_parent_plus_1(lv[0]):
+            ck.violation(rule, inst, b.path, b.where(news[0][0]), expected="level = visitor.level + 1", found=f"both children get `{render(lv[0])}`")
+        else:
+            ck.ok(rule, inst, b.path, b.where(news[0][0]), f"both children get `{render(lv[0])}`")
+
+
+def run(ck, prog):
+    _run_pre_levels(ck, prog)
+    child_levels(ck, prog)
+
+
+EXPLANATION += (' Completeness/depth: the stored best score (split_score) is compared with other candidates only - never defaulted to or tested against a constant (E1-candidate); both child visitors built in split() receive the same level, visitor.level + 1 (E1-sibling).')
